@@ -246,7 +246,8 @@ def task_pairsearch(ctx, arg):
 
 # ---------------------------------------------------------------------------------------------
 # E1: Verus on the mechanically extracted text of the limb layer
-VERUS_PROPS = {'fp': ['C06', 'C07', 'C12', 'C13'], 'fpr': ['C06', 'C07', 'C13'], 'mul': ['C06', 'C07', 'C12', 'C13'], 'sop': ['C06', 'C07', 'C12', 'C13'], 'square': ['C06', 'C07'], 'divrem': ['C13', 'C07'], 'invert': ['C06']}
+VERUS_PROPS = {'divrem': ['C06', 'C07', 'C12', 'C13'], 'invr': ['C06', 'C07', 'C13'], 'inv': ['C06', 'C07', 'C12', 'C13'], 'fp': ['C06', 'C07', 'C12', 'C13'], 'fpr': ['C06', 'C07', 'C13'],
+               'mul': ['C06', 'C07', 'C12', 'C13'], 'sop': ['C06', 'C07', 'C12', 'C13'], 'square': ['C06', 'C07', 'C12']}
 
 def task_verus(ctx, unit):
     import re, tempfile, shutil
@@ -258,9 +259,17 @@ def task_verus(ctx, unit):
         r = vrun.run_unit(unit, exp, wd)
         full = os.path.join(wd, unit + '_full.rs')
         names = []
+        scan = []
         if os.path.exists(full):
-            for m in re.finditer(r'^\s*(?:pub )?(?:const )?(proof fn|fn) (\w+)', open(full).read(), re.M):
+            ftxt = open(full).read()
+            for m in re.finditer(r'^\s*(?:pub )?(?:const )?(proof fn|fn) (\w+)', ftxt, re.M):
                 names.append((m.group(2), m.group(1)))
+            # mechanical scan for everything that is assumed rather than proved in the verified file
+            ext = re.findall(r'#\[verifier::external_body\]\s*(?://@\s*)?\n\s*pub (?:const )?fn (\w+)', ftxt)
+            scan.append('assumption scan verus/%s: external_body (assumed contract, ark-ff BigInt; Kani group arkff proves them on the portable code): %s' % (unit, ', '.join(sorted(set(ext))) or 'none'))
+            scan.append('assumption scan verus/%s: assume()=%d admit()=%d; termination not proved for: %s' % (
+                unit, len(re.findall(r'\bassume\(', ftxt)), len(re.findall(r'\badmit\(', ftxt)),
+                ', '.join(re.findall(r'exec_allows_no_decreases_clause\]\s*(?://@\s*)?\n\s*pub fn (\w+)', ftxt)) or 'none'))
     finally:
         shutil.rmtree(wd, ignore_errors=True)
     props = VERUS_PROPS.get(unit, ['C06'])
@@ -285,7 +294,7 @@ def task_verus(ctx, unit):
                 st = 'undecided'
             obligations.append(dict(base, id='verus/%s/%s' % (unit, n), status=st, function=n, seconds=r.get('seconds', 0),
                                     detail=(r.get('detail') or '')[:600] + ' [annotation re-attached to the edited text]' * (r.get('erasure') == 'merged')))
-    return dict(obligations=obligations, notes=r.get('notes', []))
+    return dict(obligations=obligations, notes=scan + r.get('notes', []))
 
 # ---------------------------------------------------------------------------------------------
 # E2: Kani on a scratch copy of the real crate
@@ -301,7 +310,7 @@ KANI_GROUPS = {
     'enc': dict(harnesses=['g1_to_slice_layout', 'g1_to_uncompressed_layout', 'g1_to_compressed_layout',
                            'g2_to_slice_layout', 'g2_to_uncompressed_layout', 'g2_to_compressed_layout',
                            'fq12_to_slice_layout', 'fq2_to_slice_layout'], props=['C10', 'C18', 'C11', 'C12', 'C02'], timeout=900),
-    'arkff': dict(harnesses=['ark_add_with_carry_contract', 'ark_sub_with_borrow_contract', 'ark_ord_contract', 'ark_mul2_div2_contract'],
+    'arkff': dict(harnesses=['ark_add_with_carry_contract', 'ark_sub_with_borrow_contract', 'ark_ord_contract', 'ark_mul2_div2_contract', 'ark_misc_contract', 'ark_eq_contract', 'ark_b512_contract'],
                   props=['C06', 'C07', 'C13', 'C12'], timeout=900),
     'dispatch': dict(harnesses=['fr_from_slice_dispatch_lo', 'fr_from_slice_dispatch_hi', 'fq_from_slice_dispatch_lo', 'fq_from_slice_dispatch_hi',
                                 'fr_from_hash_total', 'fq_to_big_endian_total'], props=['C13', 'C18'], timeout=1200),
